@@ -126,9 +126,12 @@ TEXTS = {
                 "in the mailbox were issued, and 'the loop left idle because of a stop, the stream's end, or because "
                 "nothing owns a sender'.",
         "design_ref": "DESIGN.md §5 C05",
-        "note": "Partial: 'drains and then terminates gracefully by quiescence' (monC05q) is trace-checked, not "
-                "proved (liveness). Trusted: Lean kernel + axioms; extractor facts holds/upgradeReq; Arc/Weak "
-                "reference counting modelled as owner sets, validated by trace acceptance.",
+        "note": "The second half - 'when the last strong handle is dropped it first handles every message already "
+                "accepted and then terminates gracefully' - is theorem C05q_holds (monC05q; same wiring hypothesis, "
+                "operation ids fresh): at every quiescent point of every run, no strong holder + no stop + no "
+                "failure implies terminated, gracefully, with every acknowledged send handled. Registry / child-list "
+                "/ broker as holders: C08, C16 (C16_lifetime), C09. Trusted: Lean kernel + axioms; extractor facts "
+                "holds/upgradeReq; Arc/Weak reference counting modelled as owner sets, validated by trace acceptance.",
         "technique": "Lean 4 proof (owner-set simulation + inductive 'nothing owns a sender' invariant) + regenerated wiring + checked trace correspondence",
     },
     "C10": {
@@ -175,7 +178,10 @@ TEXTS = {
                 "the model's. The order stopped()/notify() is re-extracted from both loops on every run; the "
                 "negation is proved for the early-notify wiring by a concrete witness.",
         "design_ref": "DESIGN.md §5 C04",
-        "note": "Partial: the drain-barrier clauses (monC04q) are checked on real traces, not proved. Trusted: Lean "
+        "note": "The drain barrier is theorem C04q_holds (monC04q, both clauses, every run; WellWired05, fresh message "
+                "numbers and operation ids): a message submitted after an accepted stop request returned is never "
+                "handled and its call errs; at every quiescent point after an accepted stop without failure the actor "
+                "has terminated and every send acknowledged before the first stop request was handled. Trusted: Lean "
                 "kernel + axioms; latch/oneshot/Shared model validated by trace acceptance.",
         "technique": "Lean 4 proof (latch/result state invariants + flag/phase simulation) + regenerated wiring + checked trace correspondence",
     },
